@@ -99,12 +99,19 @@ func (dist *GParetoDistribution) LogPdf(r Scalar, x ConstScalar) error {
     }
   }
 
-  r.Sub(r, dist.Mu)
+  r.Sub(x, dist.Mu)
   r.Div(r, dist.Sigma)
 
   if dist.Xi.GetFloat64() == 0.0 {
     r.Neg(r)
+    r.Sub(r, dist.cs)  // cs  = log sigma
   } else {
+    if dist.Xi.GetFloat64() < 0 && 1.0 + dist.Xi.GetFloat64()*r.GetFloat64() <= 0 {
+      // upper end point of the support (the guard above and the
+      // standardized variable round differently)
+      r.SetFloat64(math.Inf(-1))
+      return nil
+    }
     r.Mul(r, dist.Xi)
     r.Log1p(r)
     r.Mul(r, dist.cx2) // cx2 = -1/xi - 1
